@@ -104,7 +104,7 @@ var allKeywords = []string{"$id", "$schema", "$ref", "$comment", "$defs", "defin
 	"additionalItems", "uniqueItems", "contains", "minContains", "maxContains", "unevaluatedItems", "minProperties", "maxProperties", "required", "dependentRequired", "properties", "patternProperties", "additionalProperties",
 	"propertyNames", "unevaluatedProperties", "allOf", "anyOf", "oneOf", "not", "if", "then", "else", "dependentSchemas", "contentEncoding", "contentMediaType", "contentSchema", "format"}
 
-var confusedValues = []string{`"#/not"`, `"#/items"`, `"#/then"`, `"#/properties/a"`, `"#/$defs/a/then"`, `"#/allOf/0"`, `"#/definitions/x"`, `"#/additionalProperties"`, `null`, `true`, `false`, `0`, `-1`, `1.5`, `1e400`, `-0`, `99999999999999999999`, `""`, `"x"`, `"#"`, `"("`, `[]`, `[null]`, `[1,"a",null,{}]`, `[[]]`, `{}`, `{"a":null}`, `{"a":{"a":null}}`,
+var confusedValues = []string{`"#/allOf/9223372036854775808"`, `"#/allOf/18446744073709551615"`, `"#/prefixItems/18446744073709551616"`, `"#/anyOf/9223372036854775807"`, `"#/oneOf/99999999999999999999"`, `"#/not"`, `"#/items"`, `"#/then"`, `"#/properties/a"`, `"#/$defs/a/then"`, `"#/allOf/0"`, `"#/definitions/x"`, `"#/additionalProperties"`, `null`, `true`, `false`, `0`, `-1`, `1.5`, `1e400`, `-0`, `99999999999999999999`, `""`, `"x"`, `"#"`, `"("`, `[]`, `[null]`, `[1,"a",null,{}]`, `[[]]`, `{}`, `{"a":null}`, `{"a":{"a":null}}`,
 	`{"":[]}`, `[true,false]`, `{"$ref":"#"}`, `[{"$ref":"#"}]`, `{"a":1,"a":2}`, `"\u0000"`, `2147483648`, `-2147483649`, `1.0`, `[0]`, `{"type":null}`}
 
 func (p c10) Run(c *fw.Case) {
@@ -273,6 +273,16 @@ func (p c10) bytesCase(c *fw.Case) {
 		}
 		sb.WriteString("}")
 		text = sb.String()
+		if r.IntN(4) == 0 { // give array-indexing pointers something to index
+			text = strings.TrimSuffix(text, "}")
+			if len(m) > 0 {
+				text += ","
+			}
+			text += `"allOf":[true,{"type":"integer"}],"prefixItems":[true],"anyOf":[true],"oneOf":[true]}`
+			if _, dup := m["allOf"]; dup {
+				text = sb.String()
+			}
+		}
 		if r.IntN(3) == 0 { // nested below an applicator
 			text = `{"` + gen.Pick(r, []string{"not", "items", "additionalProperties", "if", "contains", "propertyNames"}) + `":` + text + `}`
 		}
